@@ -102,29 +102,49 @@ theorem sortStage_perm (o : Val) (docs out : List Val) (h : sortStage o docs = .
 
 /-! ### `$skip`, `$limit` -/
 
-theorem skipStage_nonneg (n : Int) (docs : List Val) (h : 0 ≤ n) :
-    skipStage (.int n) docs = .ok (docs.drop n.toNat) := by
-  simp [skipStage, sliceArg, pyDropFrom, h]
+theorem skipStage_int (n : Int) (docs : List Val) :
+    skipStage (.int n) docs = (if 0 ≤ n then .ok (docs.drop n.toNat) else .error .opFail) := by
+  by_cases h : 0 ≤ n
+  · simp [skipStage, h, Int.not_lt.mpr h]
+  · simp [skipStage, h, Int.not_le.mp h]
 
-theorem limitStage_nonneg (n : Int) (docs : List Val) (h : 0 ≤ n) :
-    limitStage (.int n) docs = .ok (docs.take n.toNat) := by
-  simp [limitStage, sliceArg, pyTakeTo, h]
+theorem limitStage_int (n : Int) (docs : List Val) :
+    limitStage (.int n) docs = (if 0 < n then .ok (docs.take n.toNat) else .error .opFail) := by
+  by_cases h : 0 < n
+  · simp [limitStage, h, Int.not_le.mpr h]
+  · simp [limitStage, h, Int.not_lt.mp h]
+
+theorem skipStage_nonint (o : Val) (docs : List Val) (h : ∀ n, o ≠ .int n) :
+    skipStage o docs = .error .opFail := by
+  cases o with
+  | int n => exact absurd rfl (h n)
+  | _ => rfl
+
+theorem limitStage_nonint (o : Val) (docs : List Val) (h : ∀ n, o ≠ .int n) :
+    limitStage o docs = .error .opFail := by
+  cases o with
+  | int n => exact absurd rfl (h n)
+  | _ => rfl
 
 theorem skipStage_suffix (o : Val) (docs out : List Val) (h : skipStage o docs = .ok out) :
     out <:+ docs := by
-  unfold skipStage at h
-  split at h
-  · cases h
-  · cases h; exact List.suffix_refl _
-  · cases h; unfold pyDropFrom; split <;> exact List.drop_suffix _ _
+  cases o with
+  | int n =>
+    rw [skipStage_int] at h
+    split at h
+    · cases h; exact List.drop_suffix _ _
+    · cases h
+  | _ => simp [skipStage] at h
 
 theorem limitStage_prefix (o : Val) (docs out : List Val) (h : limitStage o docs = .ok out) :
     out <+: docs := by
-  unfold limitStage at h
-  split at h
-  · cases h
-  · cases h; exact List.prefix_refl _
-  · cases h; unfold pyTakeTo; split <;> exact List.take_prefix _ _
+  cases o with
+  | int n =>
+    rw [limitStage_int] at h
+    split at h
+    · cases h; exact List.take_prefix _ _
+    · cases h
+  | _ => simp [limitStage] at h
 
 /-! ### `$count` -/
 
